@@ -236,6 +236,47 @@ def run(rep: Report, repo: Repo, tier: str) -> None:
               key="C06-R1|lexer-listener")
     rep.floor("C06-R1", 1, "lexer construction site")
 
+    # ---- R8: no token is pulled before the listeners are in place
+    rep.rule("C06-R8", "no token is lexed / no rule is parsed before the raising listeners are attached (token stream look-ahead, "
+                       "fill, nextToken, parser rule calls come after addErrorListener)")
+    rule_names_all, _sw = parser_rule_handlers(repo)
+    PULL = {"LA", "LT", "fill", "consume", "getTokens", "nextToken", "getAllTokens", "get", "getText", "seek", "sync", "lazyInit",
+            "setup", "getHiddenTokensToLeft", "getHiddenTokensToRight"} | set(rule_names_all)
+    stream_attrs = roles.self_attr_assigned_from(repo.cls(doc_cls).node, ("CommonTokenStream", "BufferedTokenStream"))
+    watched = set(lex_attrs) | set(par_attrs) | set(stream_attrs)
+    seq = []
+    for mname in ("__init__", "process"):
+        fn = repo.cls(doc_cls).methods.get(mname)
+        if fn is None:
+            continue
+        for st in stmts_in(fn):
+            for c in calls_in(st) if not isinstance(st, (ast.If, ast.For, ast.While, ast.Try, ast.With)) else \
+                    [x for x in ast.walk(st.test if isinstance(st, (ast.If, ast.While)) else (st.iter if isinstance(st, ast.For) else ast.Pass()))
+                     if isinstance(x, ast.Call)]:
+                if isinstance(c.func, ast.Attribute):
+                    recv = c.func.value
+                    if isinstance(recv, ast.Attribute) and isinstance(recv.value, ast.Name) and recv.value.id == "self" \
+                            and recv.attr in watched:
+                        seq.append((c.func.attr, recv.attr, c, mname))
+    first_add = {"lexer": None, "parser": None}
+    for i, (meth, a, c, mname) in enumerate(seq):
+        if meth == "addErrorListener":
+            role = "lexer" if a in lex_attrs else "parser" if a in par_attrs else None
+            if role and first_add[role] is None:
+                first_add[role] = i
+    n8 = 0
+    for i, (meth, a, c, mname) in enumerate(seq):
+        if meth in PULL:
+            n8 += 1
+            late = [r for r in ("lexer", "parser") if first_add[r] is None or first_add[r] > i]
+            # a parser rule call needs both listeners; a stream look-ahead needs the lexer listener
+            need = ["lexer", "parser"] if meth in rule_names_all else ["lexer"]
+            missing = [r for r in need if r in late]
+            rep.check(not missing, "C06-R8", f"{dmod}:{doc_cls}.{mname}", norm(c)[:70],
+                      f"`{norm(c)[:50]}` pulls tokens before the {' and '.join(missing)} error listener is attached: a fault in the tokens "
+                      f"read by then is only printed to stderr and skipped", witness="file that starts with an unterminated '#[=[' or a stray '\"'")
+    rep.floor("C06-R8", 1, "token-pulling calls")
+
     # ---- R2: parser errors escape nested rule handlers
     rep.rule("C06-R2", "syntax errors raised inside nested rule methods cannot be swallowed: non-Recognition raise, "
                        "error-count gate before the walk, or bail strategy")
